@@ -149,6 +149,16 @@ class EvalMixin(object):
                 if len(ca.items) != len(cb.items):
                     return z3.BoolVal(False)
                 return z3.And(*[self.eq(x, y, st) for x, y in zip(ca.items, cb.items)]) if ca.items else z3.BoolVal(True)
+            if isinstance(ca, (HList, HCList)) and isinstance(cb, (HList, HCList)) and (isinstance(ca, HCList) or isinstance(cb, HCList)):
+                # one side has a static length: a plain (quantifier-free) formula
+                sc, sy = (ca, cb) if isinstance(ca, HCList) else (cb, ca)
+                if all(isinstance(x, (VInt, VStr, VBool)) for x in sc.items):
+                    ly = self.as_hlist(sy)
+                    kinds = set(x.kind for x in sc.items)
+                    if not sc.items:
+                        return ly.n == 0
+                    if kinds == {ly.ek}:
+                        return z3.And(ly.n == len(sc.items), *[z3.Select(ly.arr, i) == x.e for i, x in enumerate(sc.items)])
             if isinstance(ca, (HList, HCList)) and isinstance(cb, (HList, HCList)):
                 la, lb = self.as_hlist(ca), self.as_hlist(cb)
                 if la.ek != lb.ek:
